@@ -559,6 +559,9 @@ func sigToken(class string, node string) (string, bool) {
 		return sign(jwt.SigningMethodRS512, claims(-time.Hour, node), sigKey), false
 	case "other-audience":
 		return sign(jwt.SigningMethodRS512, claims(time.Hour, "someone-else"), sigKey), false
+	case "audience-other-case":
+		// addressed to a node whose ID differs from this node's only in letter case: a different node
+		return sign(jwt.SigningMethodRS512, claims(time.Hour, strings.ToUpper(node)), sigKey), false
 	case "other-key":
 		return sign(jwt.SigningMethodRS512, claims(time.Hour, node), sigOtherKey), false
 	case "alg-none":
@@ -767,12 +770,13 @@ func sigReplay(raw json.RawMessage) interface{} {
 
 func sigGen(v *verifRun) {
 	subs := []string{"submit", "cancel", "release", "force-release", "results", "status", "list"}
-	conns := []string{"unix", "tcp", "netceptor-verif-node"}
+	// "netceptor-unix-exec1": a mesh stream on a node whose ID happens to contain "unix" — not the Unix socket
+	conns := []string{"unix", "tcp", "netceptor-verif-node", "netceptor-unix-exec1"}
 	types := []string{"verifying", "plain", "remote-signed", "remote-unsigned", "unknown"}
 	toks := []string{"absent", "empty", "garbage", "valid", "valid-rs256", "expired", "other-audience", "other-key", "alg-none", "hmac-with-public-key",
-		"truncated", "future-iat-other-key", "no-expiry"}
+		"truncated", "future-iat-other-key", "no-expiry", "audience-other-case"}
 	nodes := []string{"", "", "localhost", "LocalHost", "LOCALHOST"}
-	// the whole product is 7*3*5*13 = 1365 cases: enumerate a seeded sample of it (all of it in the thorough tier)
+	// the whole product is 7*4*5*14 = 1960 cases: enumerate a seeded sample of it (all of it in the thorough tier)
 	type combo struct{ s, c, t, k int }
 	var all []combo
 	for s := range subs {
@@ -799,7 +803,7 @@ func sigGen(v *verifRun) {
 	// work-type names that differ from a registered one only by white space or case: unknown types, whatever the token
 	for _, name := range []string{"near-lead", "near-nl", "near-plain-tab", "near-trail", "near-upper"} {
 		for _, tk := range []string{"absent", "valid", "expired"} {
-			v.do(sigApply, "command", sigArgs{Sub: "submit", Conn: conns[1+v.rng.Intn(2)], WorkType: name, Token: tk, KeySet: true})
+			v.do(sigApply, "command", sigArgs{Sub: "submit", Conn: conns[1+v.rng.Intn(3)], WorkType: name, Token: tk, KeySet: true})
 		}
 	}
 	// a token replayed after its expiry
@@ -810,7 +814,12 @@ func sigGen(v *verifRun) {
 	}
 	for i := 0; i < reps; i++ {
 		pr := pairs[i%len(pairs)]
-		v.do(sigApply, "replay", sigReplayArgs{First: pr[0], Second: pr[1], Conn: conns[1+v.rng.Intn(2)]})
+		v.do(sigApply, "replay", sigReplayArgs{First: pr[0], Second: pr[1], Conn: conns[1+v.rng.Intn(3)]})
+	}
+	// always: the audience that differs only in case, and the mesh network name that contains "unix", on every gated command
+	for _, sub := range []string{"submit", "cancel", "release", "results"} {
+		v.do(sigApply, "command", sigArgs{Sub: sub, Conn: "tcp", WorkType: "verifying", Token: "audience-other-case", KeySet: true})
+		v.do(sigApply, "command", sigArgs{Sub: sub, Conn: "netceptor-unix-exec1", WorkType: "verifying", Token: "absent", KeySet: true})
 	}
 }
 
